@@ -30,6 +30,7 @@ pub fn check(tier: Tier) -> Check {
         parts.push(Part::new("C13/causes", json!({"depth": d}), k, tier.pick(40, 600)));
     }
     Check {
+        also_rel: false,
         property: "C13",
         level: "model_checking",
         rule: "connect()/authorize(): CONNACK with each of the 22 reasons x property sets, AUTH challenge and continuation, end-of-stream at every byte offset of the CONNACK, read and write errors; run(): every terminating cause (user DISCONNECT, server DISCONNECT, EOF, read error, write error, last handle dropped, undecodable packet) injected at every point of every bounded history of operations (idle, operations outstanding, streams open, mid-QoS 2), followed by further operations; flat sweeps over all 29 DISCONNECT reasons x property sets; non-trivial = run()/connect() returned".into(),
